@@ -119,6 +119,9 @@ func checkFlow(p flowParams, x *verifkit.Exec) []verifkit.Violation {
 							if k := (recKey{s, i}); nackedInEpoch[k] || dlqNacked[k] {
 								a.bad("C07/rejected-record-covered-by-position", "commit #%d (event #%d) stores position %d for %s: it covers record %d, which was rejected and has no confirmed DLQ write - the record is lost", e.Idx, e.Seq, q, s, i)
 							}
+							// the engine acknowledged position q to the source connector object (that is what gets persisted) while record i
+							// before it has no outcome: the acknowledged sequence has a gap, whether or not the plugin was told yet
+							a.bad("C04/ack-sequence-has-gap", "the position stored for %s jumped to record %d (commit #%d, event #%d) while record %d has no outcome yet (%s never confirmed it, not dead-lettered): a position was skipped in the acknowledgment sequence", s, q, e.Idx, e.Seq, i, missing)
 							if forceCalled {
 								a.bad("C12/unhandled-record-acknowledged", "after the force stop, commit #%d (event #%d) stores position %d for %s although record %d was never confirmed by %s (nor dead-lettered): the force stop caused a record to be acknowledged that was not handled", e.Idx, e.Seq, q, s, i, missing)
 							}
